@@ -44,9 +44,9 @@ def jobs(tier):
         mk('C15', 'after_timeout', after_timeout(), witnesses=W),
         mk('C15', 'recur/await', recur_idle('await')),
         mk('C15', 'x2/other_fresh', S.two_bus_await('other_fresh', ('A', 'B'), yield_first=False), witnesses=W),
-        mk('C15', 'idle_other_bus/AB', S.idle_other_bus(('A', 'B')), witnesses=W),
-        mk('C15', 'idle_other_bus/BA', S.idle_other_bus(('B', 'A')), witnesses=W),
-        mk('C15', 'idle_other_bus/small_history', S.idle_other_bus_small_history(('A', 'B')), witnesses=W),
+        mk('C15', 'idle_other_bus/AB', S.idle_other_bus(('A', 'B')), witnesses=W, split={'t_w': 2}),
+        mk('C15', 'idle_other_bus/BA', S.idle_other_bus(('B', 'A')), witnesses=W, split={'t_w': 2}),
+        mk('C15', 'idle_other_bus/small_history', S.idle_other_bus_small_history(('A', 'B')), witnesses=W, split={'t_w': 2}),
         mk('C15', 'fw_target_cleared_then_timeout', S.fw_target_cleared_then_timeout(), witnesses=W),
         mk('C15', 'flood_idle', S.flood_idle(), witnesses=W),
         mk('C15', 'wal_unserialisable', S.wal_unserialisable()),
